@@ -359,3 +359,64 @@ def fmt_template(node):
                     if a.get("t") == "str":
                         return [("lit", a["v"])]
     return None
+
+
+# ------------------------------------------------------------ for loops ----
+
+def for_loops(root):
+    """[(pattern, iterated_expr, body, node)] for every `for PAT in ITER { BODY }` under root."""
+    out = []
+    for m in exprs(root, "Match"):
+        if not m.get("src", "").startswith("ForLoopDesugar"):
+            continue
+        it = m["scrut"]
+        if it.get("k") == "Call" and it.get("args"):
+            it = it["args"][0]
+        pat = body = None
+        for inner in exprs(m["arms"][0]["body"], "Match"):
+            for arm in inner["arms"]:
+                pv = pat_variant(arm["pat"])
+                if pv and pv[1] == "Some":
+                    pat = pat_sub(arm["pat"], "0")
+                    body = arm["body"]
+            if pat is not None:
+                break
+        if pat is not None:
+            out.append((pat, it, body, m))
+    return out
+
+
+def leftmost_var(e):
+    """Descend through receivers / first arguments, fields, derefs to the variable at the bottom."""
+    while isinstance(e, dict):
+        e = strip(e)
+        k = e.get("k")
+        if k == "Var":
+            return e
+        if k == "Call" and e.get("args"):
+            e = e["args"][0]
+        elif k in ("Field", "Cast", "Index", "Unary"):
+            e = e["e"]
+        else:
+            return None
+    return None
+
+
+def pat_binds(p, path=()):
+    """[(id, name, path)] of all bindings in a pattern; path = tuple/field positions."""
+    k = p.get("k")
+    out = []
+    if k == "Bind":
+        out.append((p["id"], p["name"], path))
+        if "sub" in p:
+            out += pat_binds(p["sub"], path)
+    elif k in ("Variant", "Leaf"):
+        for sp in p["subs"]:
+            out += pat_binds(sp["p"], path + (str(sp["f"]),))
+    elif k == "Or":
+        for q in p["pats"]:
+            out += pat_binds(q, path)
+    elif k == "Slice":
+        for i, q in enumerate(p.get("prefix", [])):
+            out += pat_binds(q, path + ("[%d]" % i,))
+    return out
